@@ -814,11 +814,28 @@ class NumpyStub:
         except TypeError as e:
             raise Raised(e)
 
-    def m_flatten(self, a, *x):
-        return Arr.from_list(a.elems(), (a.size,), a.dtype)
+    def _order_positions(self, a, order):
+        """positions of the elements of `a` in the requested flattening order ('C' row-major, 'F' column-major,
+        'K' / 'A' for the views modelled here: memory order when the view is a permutation of a block, else row-major)"""
+        order = raw(order)
+        if order in ("C", None):
+            return list(a.pos)
+        if order == "F":
+            t = self.transpose(a) if a.ndim > 1 else a
+            return list(t.pos)
+        if order in ("K", "A"):
+            return sorted(a.pos) if len(set(a.pos)) == len(a.pos) else list(a.pos)
+        raise Raised(ValueError("order must be one of 'C', 'F', 'A', or 'K'"))
 
-    def m_ravel(self, a, *x):
-        return Arr(a.store, list(a.pos), (a.size,), a.dtype)
+    def m_flatten(self, a, order="C"):
+        pos = self._order_positions(a, order)
+        return Arr.from_list([a.store[p] for p in pos], (a.size,), a.dtype)
+
+    def m_ravel(self, a, order="C"):
+        pos = self._order_positions(a, order)
+        if pos == sorted(pos):       # contiguous in the requested order: a view, otherwise numpy copies
+            return Arr(a.store, pos, (a.size,), a.dtype)
+        return Arr.from_list([a.store[p] for p in pos], (a.size,), a.dtype)
 
     def m_reshape(self, a, *shape):
         if len(shape) == 1 and isinstance(shape[0], (tuple, list)):
